@@ -28,7 +28,7 @@ ASSUMPTIONS = [
     "a default config file that is not a readable regular file, or is empty, contributes nothing; the others still apply",
     "JSONARGPARSE_DEFAULT_ENV is read when the parser is constructed (documented); individual variables when it parses",
 ]
-PROBES = ["dcf-file-reached-twice", "glob-multi", "glob-unsorted-listing", "dcf-nonfile-match", "dcf-unreadable-match", "dcf-empty-file", "env-on", "env-off-with-vars", "same-key-3-sources", "append", "dict-item", "cfg-on-argv", "env-skew"]
+PROBES = ["append-key-in-config", "dcf-file-reached-twice", "glob-multi", "glob-unsorted-listing", "dcf-nonfile-match", "dcf-unreadable-match", "dcf-empty-file", "env-on", "env-off-with-vars", "same-key-3-sources", "append", "dict-item", "cfg-on-argv", "env-skew"]
 ANCHOR_FILES = ("_core", "_actions", "_namespace", "_typehints", "_formatters")
 NO_SHRINK = ("world/dirs", "world/cwd", "parser", "parser/*")
 SHRINK_DICTS = ("world/files", "world/env", "world/symlinks", "env_build", "direct")
@@ -85,9 +85,15 @@ def nest(settings):
     return out
 
 
-def doc(r, settings):
-    """one spelling style per document"""
-    return dict(settings) if r.random() < 0.4 else nest(settings)
+def doc(r, settings, appends=True):
+    """one spelling style per document; a list-typed key may be spelled 'key+' (append to the list built so far)"""
+    st = {}
+    for k, v in settings.items():
+        if appends and KEYS[k][0] == "list_int" and r.random() < 0.2:
+            st[k + "+"] = v
+        else:
+            st[k] = v
+    return dict(st) if r.random() < 0.4 else nest(st)
 
 
 def text(v):
@@ -204,7 +210,7 @@ def flatten(d, pre=""):
     out = {}
     for k, v in d.items():
         kk = pre + k
-        if isinstance(v, dict) and kk not in KEYS:
+        if isinstance(v, dict) and kk not in KEYS and kk.rstrip("+") not in KEYS:
             out.update(flatten(v, kk + "."))
         else:
             out[kk] = v
@@ -336,7 +342,12 @@ def fold(sc, root, cwd, variant=None, listing=None):
     def app(src, origin):
         if src[0] in ("dcf", "cfg"):
             for k, v in flatten(src[1]).items():
-                if k in st:
+                if k.endswith("+") and k[:-1] in st:
+                    if variant == "env-config-append-as-assign" and origin == "env":
+                        app(("set", k[:-1], v if isinstance(v, list) else [v]), origin)
+                    else:
+                        app(("app", k[:-1], v if isinstance(v, list) else [v]), origin)
+                elif k in st:
                     st[k] = copy.deepcopy(v)
                     touched.setdefault(k, set()).add(origin)
         elif src[0] == "set":
@@ -401,7 +412,7 @@ def fold(sc, root, cwd, variant=None, listing=None):
     return st, touched, notes, on
 
 
-VARIANTS = ["dcf-all-dropped", "dcf-duplicates-dropped", "dcf-listing-order", "dcf-reversed", "dcf-patterns-reversed", "env-ignored", "env-forced", "env-vars-before-env-cfg", "env-after-method-source", "argv-right-to-left", "append-as-assign", "dict-item-as-assign"]
+VARIANTS = ["env-config-append-as-assign", "dcf-all-dropped", "dcf-duplicates-dropped", "dcf-listing-order", "dcf-reversed", "dcf-patterns-reversed", "env-ignored", "env-forced", "env-vars-before-env-cfg", "env-after-method-source", "argv-right-to-left", "append-as-assign", "dict-item-as-assign"]
 
 
 # ---------------------------------------------------------------------------------------------------
@@ -485,6 +496,8 @@ def execute(sc, ctx):
             sim.probe("dict-item")
         if "--cfg" in sc["argv"] and sc["method"].startswith("parse_args"):
             sim.probe("cfg-on-argv")
+        if '+\\"' in json.dumps([sc["world"]["files"], sc["argv"], sc["env"], sc["direct"]]) or '+"' in json.dumps(sc["direct"]):
+            sim.probe("append-key-in-config")
         ctx.nontrivial = bool(multi)
         ctx.notes["srcs"] = [sc["method"], sorted(notes), sorted(set(key_kind(k) for k in touched)), sorted(set(x for v in touched.values() for x in v)), on]
         ctx.record(sc["method"], o.brief())
